@@ -184,7 +184,8 @@ class JsonSchemaParser:
                 t = t or self.type_map.get(type) or self.default_type
 
         elif not unprovided(value):
-            t = type(value)
+            # `type` is the schema's "type" keyword here (None): use the builtin
+            t = _type(value)
         elif conditions:
             condition_types = [self.parse_type(cond) for cond in conditions]
             if any_of:
